@@ -3,7 +3,7 @@
    the response hook may produce (relational: peer selection is not
    deterministic).  Instances for the memory and the Redis store.
    Definitions only. *)
-From Chihaya Require Export Model.MemStore Model.RedisStore Model.Select.
+From Chihaya Require Export Model.Select Model.MemStore Model.RedisStore.
 Open Scope Z_scope.
 
 Record store_if (S : Type) := {
